@@ -16,12 +16,17 @@ func viDigest(sym bool, seed byte) Digest {
 
 // viDigestN: the first nsym bytes of the value are symbolic, the rest concrete.
 func viDigestN(nsym int, seed byte) Digest {
+	return viDigestAt(0, nsym, seed)
+}
+
+// viDigestAt: bytes pos..pos+nsym-1 of the value are symbolic, the rest concrete.
+func viDigestAt(pos int, nsym int, seed byte) Digest {
 	value := make([]byte, 64)
 	for i := range value {
 		value[i] = seed + byte(i)*7
 	}
 	if nsym > 0 {
-		copy(value, verifNondetBytesN(nsym))
+		copy(value[pos:], verifNondetBytesN(nsym))
 	}
 	d, err := NewDigest(value)
 	if err != nil {
@@ -118,10 +123,12 @@ func VerifLemma_C08A_FileNodeRoundTrip() {
 	verifAssert(DigestEqual(node2.Digest(), node.Digest()), "parsed file node: same digest")
 }
 
-// VerifLemma_C08A_DigestRoundTrip: ParseDigest(d.String()) == d for every 64-byte value, and the text is
-// "shake256:" + 128 lower-case hex characters.
+// VerifLemma_C08A_DigestRoundTrip: ParseDigest(d.String()) == d and the text is "shake256:" + 128 lower-case hex
+// characters. The value has SYMBYTES consecutive fully symbolic bytes at every possible position; the remaining
+// bytes are a concrete pattern (hex encoding and decoding are byte-local).
 func VerifLemma_C08A_DigestRoundTrip() {
-	d := viDigestN(verifParam("SYMBYTES"), 0)
+	w := verifParam("SYMBYTES")
+	d := viDigestAt(verifNondetChoice(64-w+1), w, 0)
 	s := d.String()
 	verifCover("digest rendered")
 	verifAssert(len(s) == 9+128, "digest text is shake256: + 128 hex chars")
